@@ -117,6 +117,8 @@ class ModInfo:
             self.tree = ast.parse(self.src, filename=path)
         except SyntaxError as e:
             raise AnalysisError("cannot parse %s: %s" % (path, e))
+        from . import canon
+        self.canon_log = canon.canonicalise_module(short, self.tree)
         self.funcs = {}
         self.imports = {}   # local name -> dotted origin  ('predict' -> 'predict.predict', 'numpy' -> 'numpy')
         for n in self.tree.body:
